@@ -240,7 +240,10 @@ def _shard(shard, nshards, tier, seed):
                 variants = ((rname, rset, False),)
                 if ins.op == 'block':
                     variants += ((rname + '+bc1', dict(rset, B=0, C=1), False), (rname + '+b1', dict(rset, B=1), False),
-                                 (rname + '+match', rset, True), (rname + '+match+bc1', dict(rset, B=0, C=1), True))
+                                 (rname + '+match', rset, True), (rname + '+match+bc1', dict(rset, B=0, C=1), True),
+                                 # B values whose decrement carries the port's high byte across a contention boundary
+                                 (rname + '+b40', dict(rset, B=0x40), False), (rname + '+b80', dict(rset, B=0x80), False),
+                                 (rname + '+bC0', dict(rset, B=0xC0), False))
                 for I, (rname, rset, match) in itertools.product(ivals if uses_ir else ivals[:1], variants):
                     for F in ((0x00, 0xFF) if ins.op in ('jr', 'jp', 'call', 'ret', 'djnz', 'block') else (0x00,)):
                         for t in pos:
@@ -285,7 +288,7 @@ def run(tier, seed):
     meta = dict(
         rule='(i) both delay tables complete: one NOP in contended memory at every frame position (69888 + 2 x 70908); (ii) every opcode slot x 2 '
              'operand fillings (+ displacement +5 for DD/FD slots, + nn = 0x3FFF/0x7FFF/0xBFFF for LD through (nn)) x PC placement {{uncontended, contended, straddling 0x7FFE/0xBFFE, 0xC000}} x register/stack/port placement sets x I '
-             '(for instructions with refresh-address cycles) x both condition outcomes (block instructions: also BC=1, B=1 and A=(HL)) x frame positions ({} per machine: every phase of the pattern '
+             '(for instructions with refresh-address cycles) x both condition outcomes (block instructions: also BC=1, B=1, B=0x40/0x80/0xC0 and A=(HL)) x frame positions ({} per machine: every phase of the pattern '
              'at both ends of the window, first/middle/last line, frame edges) on 48K, 128K even bank, 128K odd bank; oracle = z80ref bus cycles + '
              'ula.delay. states = distinct (machine, op class, placement) classes; non-trivial = distinct slots per machine'.format(
                  len(positions('48K', tier))),
